@@ -963,6 +963,8 @@ def _two_state(fn, name):
         M = objs["M"]
         proc, po = M.fields["_processed"], M.fields["_pending_outbound"]
         pre_proc, pre_present = proc.z, po.present
+        B = objs["B"]
+        pre_tx, pre_rx = B.fields["_next_tx_phase"], B.fields["_next_rx_phase"]
         it.reg._pre_processed, it.reg._fwd, it.reg._entry_name = pre_proc, [], name
         ncuts = len(getattr(eng, "_cuts_seen", ()))
         try:
@@ -975,6 +977,13 @@ def _two_state(fn, name):
             # contract in C03: it only calls Mailbox.add_message)
             return
         pr = it.ctx.prove
+        # C03: message numbers are never reused: the counters that label outgoing messages / select the next message to
+        # hand to the application only move forward (a reset would give two messages the same phase, or deliver one twice)
+        if isinstance(pre_tx, VInt) and isinstance(B.fields["_next_tx_phase"], VInt):
+            pr(B.fields["_next_tx_phase"].z >= pre_tx.z, "post:C03:tx-phase-counter-never-goes-back",
+               {"kind": "post", "src": "Boss._next_tx_phase never decreases (no phase number is given to two messages)"})
+            pr(B.fields["_next_rx_phase"].z >= pre_rx.z, "post:C03:rx-phase-counter-never-goes-back",
+               {"kind": "post", "src": "Boss._next_rx_phase never decreases (no inbound phase is delivered twice)"})
         k = z3.Const(it.ctx.namer("k!any_phase"), StringS)
         pr(z3.Implies(z3.Select(pre_proc, k), z3.Select(proc.z, k)), "post:C02:processed-never-shrinks",
            {"kind": "post", "src": "no phase ever leaves Mailbox._processed (a replayed or re-delivered message stays rejected, "
